@@ -838,8 +838,17 @@ class SeparatedListOf(Value):
             L[i] = v()
         self.setValue(L)
 
+    errormsg = _('Value must be a list of items none of which is empty, '
+                 'starts or ends with a space, or contains the list '
+                 'separator, not %r.')
     def setValue(self, v):
-        super(SeparatedListOf, self).setValue(self.List(v))
+        v = self.List(v)
+        for x in v:
+            # An item that the syntax of its own list would split or alter
+            # could not be read back from the configuration file.
+            if isinstance(x, str) and self.splitter(x) != [x]:
+                self.error(v)
+        super(SeparatedListOf, self).setValue(v)
 
     def __str__(self):
         values = self()
@@ -872,7 +881,8 @@ class CommaSeparatedListOfStrings(SeparatedListOf):
     __slots__ = ()
     Value = String
     def splitter(self, s):
-        return re.split(r'\s*,\s*', s)
+        # No empty items: an empty list is written as a blank.
+        return [x for x in re.split(r'\s*,\s*', s.strip()) if x]
     joiner = ', '.join
 
 class CommaSeparatedSetOfStrings(SeparatedListOf):
@@ -880,7 +890,8 @@ class CommaSeparatedSetOfStrings(SeparatedListOf):
     List = set
     Value = String
     def splitter(self, s):
-        return re.split(r'\s*,\s*', s)
+        # No empty items: an empty set is written as a blank.
+        return [x for x in re.split(r'\s*,\s*', s.strip()) if x]
     joiner = ', '.join
 
 class TemplatedString(String):
